@@ -84,6 +84,9 @@ pub trait Api1 {
 	async fn suby(&self, a: u64, b: Option<String>) -> SubscriptionResult;
 	#[subscription(name = "subsync" => "subsyncNotif", unsubscribe = "unsubsync", item = Vec<Value>, with_extensions)]
 	fn subsync(&self, a: u64) -> SubscriptionResult;
+	// a server method that returns the response payload itself
+	#[method(name = "rp_payload")]
+	async fn rp_payload(&self, a: u64, b: Option<String>) -> jsonrpsee::ResponsePayload<'static, Vec<Value>>;
 	// every parameter optional: the call may carry no params at all
 	#[method(name = "all_opt")]
 	async fn all_opt(&self, a: Option<u64>, b: Option<String>) -> RpcResult<Vec<Value>>;
@@ -216,6 +219,11 @@ impl Api1Server for Impl {
 			}
 		});
 		Ok(())
+	}
+	async fn rp_payload(&self, a: u64, b: Option<String>) -> jsonrpsee::ResponsePayload<'static, Vec<Value>> {
+		let args = vec![js(&a), jo(&b)];
+		self.0.lock().unwrap().push(("rp_payload".into(), args.clone()));
+		jsonrpsee::ResponsePayload::success(ret(&args))
 	}
 	async fn all_opt(&self, a: Option<u64>, b: Option<String>) -> RpcResult<Vec<Value>> {
 		let args = vec![jo(&a), jo(&b)];
@@ -359,6 +367,7 @@ fn methods() -> Vec<MD> {
 		MD { key: "subx", rpc_name: "ns.subx", aliases: &[], map: false, params: vec![pd("a", false, 1)] },
 		MD { key: "suby", rpc_name: "ns.suby", aliases: &[], map: true, params: vec![pd("a", false, 1), pd("b", true, 2)] },
 		MD { key: "subsync", rpc_name: "ns.subsync", aliases: &[], map: false, params: vec![pd("a", false, 1)] },
+		MD { key: "rp_payload", rpc_name: "ns.rp_payload", aliases: &[], map: false, params: vec![pd("a", false, 1), pd("b", true, 2)] },
 		MD { key: "all_opt", rpc_name: "ns.all_opt", aliases: &[], map: false, params: vec![pd("a", true, 1), pd("b", true, 2)] },
 		MD { key: "all_opt_named", rpc_name: "ns.all_opt_named", aliases: &[], map: true, params: vec![pd("a", true, 1), pd("b", true, 2)] },
 		MD { key: "fail_with", rpc_name: "ns.fail_with", aliases: &[], map: false, params: vec![pd("code", false, 7), pd("msg", false, 2), pd("data", true, 6)] },
@@ -569,6 +578,7 @@ async fn run(lines: Vec<String>, out: &mut Out) {
 						Ok(mut s) => s.next().await.map(|r| r.map_err(|e| e.to_string())).unwrap_or(Err("stream ended".into())),
 						Err(e) => Err(e.to_string()),
 					},
+					"rp_payload" => Api1Client::rp_payload(&client, a!(0, u64), o!(1, String)).await.map_err(|e| e.to_string()),
 					"all_opt" => Api1Client::all_opt(&client, o!(0, u64), o!(1, String)).await.map_err(|e| e.to_string()),
 					"all_opt_named" => Api1Client::all_opt_named(&client, o!(0, u64), o!(1, String)).await.map_err(|e| e.to_string()),
 					"fail_with" => match Api1Client::fail_with(&client, a!(0, i32), a!(1, String), o!(2, P)).await {
@@ -589,6 +599,23 @@ async fn run(lines: Vec<String>, out: &mut Out) {
 					},
 					_ => unreachable!(),
 				};
+				// a subscription stub's stream was dropped at the end of the call above: the generated client must
+				// now unsubscribe through the (namespaced) unsubscribe method the server registered
+				let mut unsub_repr = String::new();
+				let mut unsub_orc: Result<(), String> = Ok(());
+				if md.key.starts_with("sub") && res.is_ok() {
+					tokio::time::sleep(std::time::Duration::from_millis(1)).await;
+					tokio::time::sleep(std::time::Duration::from_millis(1)).await;
+					let expect = format!("ns.un{}", md.key);
+					let msgs = wire.lock().unwrap().clone();
+					let methods: Vec<String> = msgs.iter().skip(1).filter_map(|m| serde_json::from_str::<Value>(m).ok()).filter_map(|v| v.get("method").and_then(|x| x.as_str()).map(|x| x.to_string())).collect();
+					if methods.iter().any(|m| *m == expect) {
+						unsub_repr = " unsub=ok".into();
+					} else {
+						unsub_repr = format!(" unsub=WRONG:{}", hexs(&methods.join(",")));
+						unsub_orc = Err(format!("after the stream of `{}` was dropped the client called {methods:?}, the server registered `{expect}` for unsubscribing", md.key));
+					}
+				}
 				let needle = format!("\"method\":\"{}\"", md.rpc_name);
 				let sent = wire.lock().unwrap().iter().find(|m| m.contains(&needle)).cloned().unwrap_or_default();
 				let p = params_of_request(&sent);
@@ -603,7 +630,7 @@ async fn run(lines: Vec<String>, out: &mut Out) {
 					Err(e) if e.starts_with("CALL:") => e.clone(),
 					Err(e) => format!("ERR:{}", hexs(e)),
 				};
-				let o = format!("p={} r={} ret={}", p.as_ref().map(|s| hexs(s)).unwrap_or("none".into()), r_repr, ret_repr);
+				let o = format!("p={} r={} ret={}{}", p.as_ref().map(|s| hexs(s)).unwrap_or("none".into()), r_repr, ret_repr, unsub_repr);
 				// oracle: received == sent (as serde values), returned == produced
 				let orc = (|| {
 					let Some((k, got)) = &recv else { return Err("server method was not invoked".to_string()) };
@@ -644,6 +671,7 @@ async fn run(lines: Vec<String>, out: &mut Out) {
 					}
 					Ok(())
 				})();
+				let orc = orc.and(unsub_orc);
 				out.count(&format!("mcall.{}", md.key));
 				out.line(line.clone(), o, orc, !args.is_empty());
 			}
